@@ -612,6 +612,45 @@ def _no_raw_change_before(f, block):
     return True
 
 
+def _state_dispatch_reads(g, bi, c, tests):
+    """The call in block `bi` of g is the arm `V` of a state dispatch (`match state { E::V => handler() }`
+    on a private enum E): the handler runs only after some function produced `E::V`.  Returns the number
+    of construction sites of `E::V` when each of them has just read c bytes successfully (and g itself
+    never moves raw.end), else 0."""
+    hit = None
+    for pe, names, other, sb in tests.disc_edges:
+        adt = tests.disc_adt.get(sb)
+        a = g.facts.adts.get(adt) if adt else None
+        if a is None:
+            continue
+        for v, tb in names.items():
+            if isinstance(v, str) and edge_dominates(g, tb, sb, bi):
+                hit = (adt, v)
+    if hit is None:
+        return 0
+    adt, variant = hit
+    # g's own statements never change raw.end (its callees - the handlers - do, before they name the next state)
+    for x in g.normal_blocks():
+        for st in g.blocks[x]["st"]:
+            if st["k"] == "A" and ("html::Tokenizer", "raw") in place_field_chain(st["p"]):
+                return 0
+    n = 0
+    for h in g.facts.fn_list:
+        if h.derived:
+            continue
+        sites = [(b2, si, st) for b2, si, st in h.assigns() if st["r"].get("k") == "agg" and st["r"].get("adt") == adt and st["r"].get("variant") == variant]
+        if not sites:
+            continue
+        pvh = Prov(h, copies=True)
+        th = Tests(h, pvh)
+        for b2, si, st in sites:
+            fake = Site(h, b2, "sub", [("field", ("field", ("param", 1), "raw", "html::Tokenizer"), "end", "html::Span"), ("const", c)], span_line(st["s"]), "Sub", h.blocks[b2]["term"], pvh)
+            if not g8_unread(fake, th):
+                return 0
+            n += 1
+    return n
+
+
 def _callers_have_read(f, block, c, depth):
     if depth > 3 or not _no_raw_change_before(f, block):
         return False, 0
@@ -631,6 +670,10 @@ def _callers_have_read(f, block, c, depth):
             total += 1
             fake = Site(g, bi, "sub", [("field", ("field", ("param", 1), "raw", "html::Tokenizer"), "end", "html::Span"), ("const", c)], span_line(t["s"]), "Sub", t, pv)
             if g8_unread(fake, tests):
+                continue
+            sd = _state_dispatch_reads(g, bi, c, tests)
+            if sd:
+                total += sd
                 continue
             ok, n = _callers_have_read(g, bi, c, depth + 1)
             if not ok:
